@@ -24,7 +24,7 @@ func (c01) Rule() string {
 	return "each case generates a draft 2020-12 schema document (raw JSON, sent through Schema.UnmarshalJSON and Resolve) with the grouped keyword generator: 2-4 keywords of one interaction group " +
 		"(object / array / numeric / string / generic / logic) plus 0-2 others per schema object, subschemas inheriting the parent's group with p=0.6, boolean schemas at every position, depth<=4, " +
 		"$defs + $ref by pointer / $anchor / '#' (recursion only below instance-descending keywords), unevaluated*; atoms from small shared pools (names, patterns, float64-exact numbers, multipleOf dyadic). " +
-		"16 instances per schema: schema-directed boundary candidates, perturbations, free pool values. Oracle: independent reference model on the same raw documents (exact rationals), self-tested against the official suite. " +
+		"16 instances per schema: schema-directed boundary candidates, perturbations, free pool values; every 8th case instead uses the dedicated unevaluated* generator of C07 with its exhaustive instance pool. Oracle: independent reference model on the same raw documents (exact rationals), self-tested against the official suite. " +
 		"Non-trivial: the model evaluated >=2 different keywords on the case; distinct by (set of keyword:outcome pairs evaluated, verdict)."
 }
 func (c01) Assumptions() []string {
@@ -35,6 +35,26 @@ func (c01) Assumptions() []string {
 
 func (c01) Run(c *fw.Case) {
 	r := c.R
+	if c.Idx%8 == 7 {
+		// the dedicated unevaluated* workload (C07's generator): $ref / $dynamicRef to definitions whose applicators
+		// evaluate different subsets of a tiny pool, with an exhaustive instance pool
+		doc, array := gen.UnevalSchema(r)
+		mc := &modelCase{draft: refmodel.D2020, rootText: gen.Text(doc)}
+		m, rs, _, ok := mc.build(c)
+		if !ok {
+			return
+		}
+		var ts traceStats
+		m.Trace = ts.hook()
+		for _, im := range gen.UInstances(array) {
+			if valid, decided := mc.compare(c, m, rs, im, &ts, "draft 2020-12 (unevaluated* workload)"); decided {
+				if key, nt := ts.summarize(c, valid); nt {
+					c.Nontrivial(key)
+				}
+			}
+		}
+		return
+	}
 	focus := ""
 	if c.Idx%3 == 0 {
 		focus = gen.Pick(r, []string{"object", "array", "numeric", "string", "generic", "logic"})
